@@ -411,15 +411,16 @@ theorem lastOk_step (s s' : St) (e : Ev) (last last' : List (Nat × Bool × Nat 
 
 def WRel (wr rs mo : List Nat) : Prop := ∀ k ∈ wr, k ∈ rs ∨ k ∈ mo
 
-def TgtOk (s : St) (t : Bool) : Prop := s.cfgd = true → t = s.tgt
+def TgtOk (s : St) (t tE : Bool) : Prop := s.cfgd = true → t = s.tgt ∧ tE = s.tgtE
 
-theorem tgtOk_step (s s' : St) (e : Ev) (t t' : Bool) (h : TgtOk s t) (hs : step s e = some s')
-    (hk : (∃ k c t0, e = .cfg k c t0 ∧ t' = t0) ∨ ((∀ k c t0, e ≠ .cfg k c t0) ∧ t' = t)) : TgtOk s' t' := by
+theorem tgtOk_step (s s' : St) (e : Ev) (t tE t' tE' : Bool) (h : TgtOk s t tE) (hs : step s e = some s')
+    (hk : (∃ k c t0, e = .cfg k c t0 ∧ t' = cfgTgt t0 ∧ tE' = cfgTgtE t0) ∨
+      ((∀ k c t0, e ≠ .cfg k c t0) ∧ t' = t ∧ tE' = tE)) : TgtOk s' t' tE' := by
   obtain ⟨_, _, m3, m4⟩ := misc_frame s s' e hs
   intro hc
-  rcases hk with ⟨k, c, t0, he, rfl⟩ | ⟨hne, rfl⟩
-  · exact (m4 k c t' he).symm
-  · rw [m3 hne]
+  rcases hk with ⟨k, c, t0, he, rfl, rfl⟩ | ⟨hne, rfl, rfl⟩
+  · exact ⟨(m4 k c t0 he).1.symm, (m4 k c t0 he).2.symm⟩
+  · rw [(m3 hne).1, (m3 hne).2]
     rcases cfg_frame s s' e hs with ⟨k, c, t0, he, _⟩ | ⟨g1, _⟩
     · exact absurd he (hne k c t0)
     · exact h (by rw [← g1]; exact hc)
@@ -464,7 +465,7 @@ theorem c09_other (s s' : St) (e : Ev) (mr : Option Nat) (hR : RelC09 s mr) (hs 
 def RelProg (s : St) (m : ProgSt) : Prop :=
   Inv s ∧ Idx s ∧ ThInv s.th ∧ RelTh s.th ∧ RunInvOk s ∧ DelOk s ∧
   (∃ mo, RelOnce s mo ∧ WRel m.withRel m.relSeen mo) ∧
-  InvalOk s m.released ∧ CtxVal s m.ctx ∧ CtxOk s m.ctxCalls ∧ m.dead = s.dead ∧ TgtOk s m.tgt ∧
+  InvalOk s m.released ∧ CtxVal s m.ctx ∧ CtxOk s m.ctxCalls ∧ m.dead = s.dead ∧ TgtOk s m.tgt m.tgtE ∧
   KindsOk s m.kinds ∧ AddedConv s m.added ∧ RelInvOk s m.relInv ∧ RelC09 s m.running ∧
   LatestOk s m.latestK ∧ LatVal s m.latest m.latestK ∧ LastOk s m.last
 
@@ -478,7 +479,7 @@ theorem liveRefs_of (s : St) (r : Nat) (k : CbKind) (pc : Pc) (f sf : Bool) (t :
 theorem prog_active_facts (s : St) (m : ProgSt) (hR : RelProg s m) (hq : quiescent s = true)
     (hact : progActive m = true) :
     ∃ v e k, m.latest = some (v, e) ∧ m.latestK = some k ∧ v = s.value ∧ e = s.verr ∧ Delivered s ∧
-      m.released.contains k = false ∧ (s.cfgd = true) ∧ m.tgt = s.tgt ∧
+      m.released.contains k = false ∧ (s.cfgd = true) ∧ (m.tgt = s.tgt ∧ m.tgtE = s.tgtE) ∧
       (∀ p ∈ m.added.filter (fun p => !m.relInv.contains p.1), p.2 = true →
         lastOf m.last p.1 = some (true, v, e)) := by
   obtain ⟨hi, hx, ht, hrt, hrun, hdel, _, hinval, hctx, _, hdead, htgt, _, hadd, hrel, hc09, hlat, hlv, hlast⟩ := hR
@@ -615,16 +616,9 @@ theorem prog_probe_ok (s : St) (m : ProgSt) (pv pe : Nat) (hR : RelProg s m) (hq
     subst hv'; subst he'
     rw [if_pos hact, hml]
     simp only
-    have : (!m.tgt || (pv, pe) == (if s.verr = 0 then (s.value, 0) else (0, s.verr))) = true := by
-      rw [htg]
-      cases htt : s.tgt
-      · rfl
-      · simp only [Bool.not_true, Bool.false_or]
-        rw [hv, he, h3, h4]
-        simp only [htt, true_and, if_true]
-        by_cases hz : s.verr = 0
-        · simp [hz]
-        · simp [hz]
+    have : ((!m.tgt || pv == (if s.verr = 0 then s.value else 0)) && (!m.tgtE || pe == s.verr)) = true := by
+      rw [htg.1, htg.2, hv, he, h3, h4]
+      cases htt : s.tgt <;> cases hte : s.tgtE <;> by_cases hz : s.verr = 0 <;> simp [hz]
     rw [if_pos this]
   · rw [if_neg hact]
 
@@ -651,8 +645,8 @@ theorem prog_sim_step (s : St) (e : Ev) (s' : St) (m : ProgSt) (hR : RelProg s m
   have c_cc : (∀ a c cl, e ≠ .invSetCtx a c cl) → CtxOk s' m.ctxCalls :=
     fun h1 => ctxOk_step s s' e _ _ hcc hs (fun _ h _ => h) (fun a c cl he => absurd he (h1 a c cl))
   have c_dead : (∀ c, e ≠ .envCancelCtx c) → m.dead = s'.dead := fun h1 => by rw [md1 h1]; exact hdead
-  have c_tgt : (∀ k c t, e ≠ .cfg k c t) → TgtOk s' m.tgt :=
-    fun h1 => tgtOk_step s s' e _ _ htgt hs (Or.inr ⟨h1, rfl⟩)
+  have c_tgt : (∀ k c t, e ≠ .cfg k c t) → TgtOk s' m.tgt m.tgtE :=
+    fun h1 => tgtOk_step s s' e _ _ _ _ htgt hs (Or.inr ⟨h1, rfl, rfl⟩)
   have c_kinds : (∀ a k, e ≠ .invAddRef a k) → KindsOk s' m.kinds :=
     fun h1 => kindsOk_step s s' e _ _ hkinds hs (Or.inl ⟨rfl, h1⟩)
   have c_add : AddedConv s' m.added := addedConv_step s s' e _ _ hadd hs (fun _ _ h => Or.inl h)
@@ -735,9 +729,9 @@ theorem prog_sim_step (s : St) (e : Ev) (s' : St) (m : ProgSt) (hR : RelProg s m
           c_c09 (by simp) (by simp), c_lat (by simp), c_lv,
           lastOk_step s s' _ _ _ hi hi' hx hdel hlast hs (Or.inr ⟨r, res, v, er, rfl, rfl⟩)⟩
   | cfg kp c t =>
-    refine ⟨{ m with ctx := some c, tgt := t }, by simp [Ev.obs, monProgress], ?_⟩
+    refine ⟨{ m with ctx := some c, tgt := cfgTgt t, tgtE := cfgTgtE t }, by simp [Ev.obs, monProgress], ?_⟩
     exact ⟨hi', hx', ht', hrt', hrun', hdel', c_once (by simp) (by simp), c_inval, ctxVal_cfg s s' hi kp c t hs,
-      c_cc (by simp), c_dead (by simp), tgtOk_step s s' _ _ _ htgt hs (Or.inl ⟨kp, c, t, rfl, rfl⟩),
+      c_cc (by simp), c_dead (by simp), tgtOk_step s s' _ _ _ _ _ htgt hs (Or.inl ⟨kp, c, t, rfl, rfl, rfl⟩),
       c_kinds (by simp), c_add, c_rel (by simp), c_c09 (by simp) (by simp), c_lat (by simp), c_lv, c_last (by simp)⟩
   | invAddRef a kd =>
     refine ⟨{ m with kinds := (a, kd == .rcd) :: m.kinds }, by simp [Ev.obs, monProgress], ?_⟩
